@@ -172,6 +172,12 @@ type ReplayFile struct {
 	Minimised bool              `json:"minimised"`
 	OrigLen   int               `json:"original_vector_length"`
 	Note      string            `json:"note,omitempty"`
+	// HistoryFrom is the first seed the finding process ran (seeds are consecutive up to Seed).  History, when
+	// set, lists seeds to run in the replaying process before Seed: for violations that depend on state the
+	// code under test keeps for the life of the process (package-level caches, pools), which one run in a fresh
+	// process does not have.
+	HistoryFrom *uint64  `json:"history_from,omitempty"`
+	History     []uint64 `json:"history_seeds,omitempty"`
 }
 
 // JSON renders v.
